@@ -218,11 +218,12 @@ Section Xml.
   Definition opt_app {A : Type} (a b : option (list A)) : option (list A) :=
     match a, b with Some x, Some y => Some (x ++ y) | _, _ => None end.
 
-  Fixpoint opt_concat_map {A B : Type} (f : A -> option (list B)) (l : list A) : option (list B) :=
-    match l with
-    | [] => Some []
-    | x :: r => opt_app (f x) (opt_concat_map f r)
-    end.
+  Definition opt_concat_map {A B : Type} (f : A -> option (list B)) : list A -> option (list B) :=
+    fix go (l : list A) : option (list B) :=
+      match l with
+      | [] => Some []
+      | x :: r => opt_app (f x) (go r)
+      end.
 
   (* one entry of the map in the second loop of encodeMap, [elem] being doEncode *)
   Definition enc_entry (elem : str -> xval -> option (list xtok)) (e : str * xval) : option (list xtok) :=
